@@ -16,6 +16,7 @@ SUM result that accumulates its values, so the merged `_value_list` is the exact
 multiset of calls that were counted.
 """
 import os
+import re
 import pickle
 
 import numpy as np
@@ -77,6 +78,11 @@ def scenarios(tier):
         out.append(dict(kind="resume", lengths={"b": 2}, rep_max=2, fmt="res", delete=delete, keep=["true", 0],
                         variant="same", budget=[1, 1, 1], torn="coarse", calls="all",
                         plan=["all", "all_same_runner"]))
+    # parameter values whose type a text format does not keep (tuple, numpy scalar, nested list):
+    # "the same parameters" must be recognised after any interruption, in both result formats
+    for fmt in ("res", "res.json"):
+        out.append(dict(kind="resume", lengths={"b": 2}, rep_max=2, fmt=fmt, delete=False, keep=["true", 0],
+                        variant="same", typed_params=True, budget=[1, 0, 1], torn="coarse", calls="all"))
     # early stop rule: resume must re-evaluate it on the loaded results
     out.append(dict(kind="resume", lengths={"b": 2}, rep_max=4, fmt="res", delete=False, keep=["rep", 3],
                     variant="same", budget=[1, 1, 1], torn="coarse", calls="all"))
@@ -111,6 +117,10 @@ def grid_for(sc, run_no):
     if sc.get("no_unpack"):
         unpacked = []           # the list-valued parameter stays one fixed parameter
     rep_max = sc["rep_max"]
+    if sc.get("typed_params"):
+        pd["ant"] = (2, 2)
+        pd["npint"] = np.int64(3)
+        pd["nested"] = [[1, 2], [3]]
     if sc["variant"] == "fixed_float_close_changed":
         pd["nv"] = 1e-9 if run_no == 0 else 3e-9          # |difference| < 1e-8: "close" for np.allclose
     if run_no >= 1:
@@ -189,27 +199,58 @@ class Scenario:
         return ("ok", cid)
 
     # ---- durable image ---------------------------------------------------
-    def partial_path(self, idx, nvar):
-        nd = len(str(nvar))
-        return os.path.join(self.fs.root, "partial_results", "%s_unpack_%s.pickle"
-                            % (self.sc["fmt"], str(idx).zfill(nd)))
+    def final_names(self):
+        fmt = self.sc["fmt"]
+        return {fmt, fmt + ".pickle"}
 
     def durable(self, idxs, nvar):
-        """what a restart can find: per variation (rep, tokens) of a loadable partial file"""
-        out = {}
-        for i in idxs:
-            p = self.partial_path(i, nvar)
-            st = None
-            kind = "absent"
-            if os.path.exists(p):
+        """what a restart can find: per variation (rep, tokens, params, relative path) of a loadable
+        partial-results file.  Files are identified by CONTENT (every loadable results object in the
+        scenario's directory other than the final results file, attributed to the variation its own
+        parameters name), not by the name the library currently gives them.  An unloadable file is a
+        torn file (temporaries of an atomic save - "*.tmp*" - are skipped altogether, as a restart
+        never reads them): attributed through the index in its name when there is one, else
+        to every variation without a loadable file."""
+        out = {i: ("absent", None) for i in idxs}
+        loose = []
+        for d, _, files in os.walk(self.fs.root):
+            for fn in sorted(files):
+                full = os.path.join(d, fn)
+                rel = os.path.relpath(full, self.fs.root)
+                if rel in self.final_names():
+                    continue
+                if ".tmp" in fn or fn.endswith("~"):
+                    continue            # temporary of an (interrupted) atomic save: never read back
+                obj = None
                 try:
-                    with open(p, "rb") as f:
+                    with open(full, "rb") as f:
                         obj = pickle.load(f)
-                    st = (int(obj.current_rep), list(obj["v"][-1].get_result_accumulated_values()), obj.params)
-                    kind = "complete"
                 except Exception:  # noqa
-                    kind = "torn"
-            out[i] = (kind, st)
+                    if fn.endswith(".json"):
+                        try:
+                            from pyphysim.simulations.results import SimulationResults
+                            obj = SimulationResults.load_from_file(full)
+                        except Exception:  # noqa
+                            obj = None
+                if obj is None:
+                    m = re.search(r"_unpack_(-?\d+)", fn)
+                    if m and int(m.group(1)) in out:
+                        if out[int(m.group(1))][0] != "complete":
+                            out[int(m.group(1))] = ("torn", None)
+                    else:
+                        loose.append(rel)
+                    continue
+                try:
+                    idx = int(obj.params.unpack_index)
+                    st = (int(obj.current_rep), list(obj["v"][-1].get_result_accumulated_values()), obj.params, rel)
+                except Exception:  # noqa
+                    continue            # not a partial-results object
+                if idx in out:
+                    out[idx] = ("complete", st)
+        if loose:
+            for i in idxs:
+                if out[i][0] == "absent":
+                    out[i] = ("torn", None)
         return out
 
 
@@ -377,7 +418,7 @@ def judge_completed(sc, S, chk, case, runner, dur, idxs, rep_max, run_no):
         chk.fail(("final_file", "differs_from_runner_results"), case,
                  observed=[a.get_result_accumulated_values() for a in loaded["v"]], expected=[a.get_result_accumulated_values() for a in res["v"]])
     if sc["delete"]:
-        left = [p for p in S.fs.image() if p.startswith("partial_results/") and p.endswith(".pickle")]
+        left = [st[3] for kind, st in S.durable(idxs, len(idxs)).values() if kind == "complete"]
         if left:
             chk.fail(("delete_partial_results", "files_left"), case, observed=left, expected="[]")
 
@@ -416,7 +457,7 @@ def judge_foreign(sc, S, chk, case, status, dur, before_img, runner, idxs, nvar,
                      expected="an error: saved partial results belong to other parameters")
             return ("foreign", v, "merged")
         first = changed[0]
-        rel = os.path.relpath(S.partial_path(first, nvar), S.fs.root)
+        rel = dur[first][1][3]
         if before_img.get(rel) != after.get(rel):
             chk.fail(("foreign", v, "refused_but_file_modified"), case, observed="file changed", expected="untouched")
         return ("foreign", v, "refused")
